@@ -234,7 +234,7 @@ fn step(name: &str, o: &(String, String, String), extra: Value) -> Value {
   Value::Object(m)
 }
 
-fn fx_or_null(x: f64) -> Value {
+pub fn fx_or_null(x: f64) -> Value {
   if x.is_finite() {
     fx(x)
   } else {
@@ -322,7 +322,7 @@ pub fn shadow(cfg: &SPDCConfig) -> Value {
   let so = outcome(|| cfg.signal.clone().try_as_beam(&cs0));
   steps.push(step("signal", &(so.0.clone(), so.1.clone(), so.2.clone()), json!({})));
   if let (None, Some(e)) = (cfg.signal.theta_deg, cfg.signal.theta_external_deg) {
-    snell_inv.push(json!({"wavelength": fx(cfg.signal.wavelength_nm * NANO), "ext": fx((e * DEG.value_unsafe).abs()),
+    snell_inv.push(json!({"wavelength": fx(cfg.signal.wavelength_nm * NANO), "ext": fx(e * DEG.value_unsafe),
       "r": match &so.3 { Some(b) => fx_or_null(*(b.theta_internal() / RAD)), None => Value::Null }}));
   }
   let signal = match so.3 {
@@ -335,6 +335,9 @@ pub fn shadow(cfg: &SPDCConfig) -> Value {
   // oracles that depend on (signal, pump, cs0)
   let te = guarded_loc(|| *(signal.theta_external(&cs0) / RAD));
   orc.insert("snell_ext".into(), match te { Ok(x) => fx_or_null(x), Err(_) => Value::Null });
+  // the argument of that asin, n sin(theta_s), through the public index: the composed model's definedness guard is |.| <= 1
+  let sa = guarded_loc(|| *signal.refractive_index(signal.frequency(), &cs0) * (*(signal.theta_internal() / RAD)).sin());
+  orc.insert("snell_arg".into(), match sa { Ok(x) => fx_or_null(x), Err(_) => Value::Null });
   let z = dkz0(&signal, &pump, &cs0);
   orc.insert("dkz0".into(), match z { Some(z) => fx_or_null(z), None => Value::Null });
   // -- poling
@@ -374,7 +377,9 @@ pub fn shadow(cfg: &SPDCConfig) -> Value {
         // does the implementation reject this explicit period before anything else (0 / non-finite)?  Observed through
         // the public one-shot helper, not assumed.
         let pre = outcome(|| cfg.periodic_poling.clone().try_as_periodic_poling(&signal, &pump, &cs0));
-        if pre.0 == "err" && pre.1.starts_with("Poling period must") {
+        // (the explicit-period arm has no other source of Err: compute_sign returns a Sign, not a Result -- the generator
+        // checks the arm's shape -- so the class of the outcome, not the text of the message, decides)
+        if pre.0 == "err" {
           steps.push(step("period_check", &(pre.0.clone(), pre.1.clone(), pre.2.clone()), json!({})));
           return done(steps, orc, snell_inv, waist_pos, Value::Null);
         }
@@ -414,7 +419,7 @@ pub fn shadow(cfg: &SPDCConfig) -> Value {
       let o = outcome(|| ic.clone().try_as_beam(&cs1));
       steps.push(step("idler_explicit", &(o.0.clone(), o.1.clone(), o.2.clone()), json!({})));
       if let (None, Some(e)) = (ic.theta_deg, ic.theta_external_deg) {
-        snell_inv.push(json!({"wavelength": fx(ic.wavelength_nm * NANO), "ext": fx((e * DEG.value_unsafe).abs()),
+        snell_inv.push(json!({"wavelength": fx(ic.wavelength_nm * NANO), "ext": fx(e * DEG.value_unsafe),
           "r": match &o.3 { Some(b) => fx_or_null(*(b.theta_internal() / RAD)), None => Value::Null }}));
       }
       match o.3 {
